@@ -14,6 +14,7 @@ const SALTS: [[u8; 32]; 4] = [[0x51; 32], [0x52; 32], [0x53; 32], [0x59; 32]];
 
 #[derive(Clone, Hash)]
 struct Model {
+    advances: u8,
     trusted: [bool; 4],
     /// gas-token balances of U0, U1, gas service
     gas: [i128; 3],
@@ -36,6 +37,7 @@ enum Act {
     Interchain { caller: usize, salt: usize, dest: usize, gas: Gas, auth: u8 },
     /// deploy_remote_canonical_token for canonical token index `tok`; spender pays
     Canonical { tok: usize, spender: usize, dest: usize, gas: Gas, auth: u8 },
+    Advance(u32),
 }
 
 struct CanonTok {
@@ -130,11 +132,14 @@ impl Scenario for C18 {
                 balance_watch.push((t.clone(), h));
             }
         }
-        (Ctx { iw, local_meta, canon, balance_watch }, Model { trusted: [true, false, false, false], gas: [3, 1, 0] })
+        (Ctx { iw, local_meta, canon, balance_watch }, Model { advances: 0, trusted: [true, false, false, false], gas: [3, 1, 0] })
     }
 
-    fn actions(&self, ctx: &Ctx, _m: &Model) -> Vec<Act> {
+    fn actions(&self, ctx: &Ctx, m: &Model) -> Vec<Act> {
         let mut v = vec![];
+        if m.advances < 1 {
+            v.push(Act::Advance(20));
+        }
         for c in [0usize, 1, 3] {
             v.push(Act::SetTrusted(c));
             v.push(Act::RemoveTrusted(c));
@@ -178,6 +183,13 @@ impl Scenario for C18 {
         let env = &w.env;
         let h0 = w.state_hash();
         match a {
+            Act::Advance(n) => {
+                out.kind = "advance";
+                out.accepted = true;
+                w.set_seq(w.seq() + n);
+                w.set_time(w.now() + 5 * *n as u64);
+                m.advances += 1;
+            }
             Act::SetTrusted(c) | Act::RemoveTrusted(c) => {
                 out.kind = "trust";
                 let set = matches!(a, Act::SetTrusted(_));
@@ -318,7 +330,7 @@ impl Scenario for C18 {
 fn main() {
     main_for(|tier| {
         let thorough = tier == "thorough";
-        let mut o = Opts::new(tier, if thorough { 9 } else { 7 });
+        let mut o = Opts::new(tier, if thorough { 11 } else { 9 });
         o.min_depth = 2;
         o.rule = "histories of trusted-chain changes (ethereum, avalanche, the hub itself) followed by remote deployment requests: deploy_remote_interchain_token for caller U0 / U1 x 4 salts (3 registered by U0 with metadata incl. multi-byte name and decimals 0/7/255; one never used; U1 reusing U0's salts) and deploy_remote_canonical_token for a registered asset contract, an unregistered one and 5 canonical tokens with unusual metadata (256 decimals, empty name, empty symbol, non-UTF-8 name, 255 decimals); destination trusted / removed again / never trusted / the hub; gas -1, 0, 1, balance, balance+1; authorised by the payer / the other user / nobody. Announced payload, gas_paid and token_deployment_started are compared with the independent ABI encoding of the token's actual metadata; every other balance must stay put".into();
         (C18 { thorough }, o)
